@@ -1,22 +1,47 @@
 """Property -> units / function scopes / Kani leaves.  The property texts live in properties.jsonl (fixed)."""
 
+SHA = 'sha256 / ripemd160 / sha1 / sha512 are uninterpreted functions (the sha2, ripemd160, sha-1 crates are assumed to compute them)'
+TB = 'Trusted: Verus/Z3, Kani/CBMC, rustc; the extraction rules of DESIGN 2.2 (comments/attributes dropped, lexical rewrites R1-R12 recorded per function in the evidence); shim contracts on std/byteorder/Cursor listed under trusted_base; derive(Clone) is structural.'
+
 PROPS = {
+    'C01': {
+        'units': {
+            'tx_wire': ['*'],
+            'tx_cache': ['Transaction::new', 'Transaction::new_impl', 'Transaction::add_input', 'Transaction::add_output', 'Default for Transaction::default'],
+            'script_ser': ['*'],
+        },
+        'kani': [
+            {'harness': 'write_varint_vec_all_u64', 'validates': 'shim contract VarIntWriter for Vec<u8>::write_varint == varint(n), all u64'},
+            {'harness': 'read_varint_cursor_all_prefixes', 'validates': 'shim contract VarIntReader for Cursor<Vec<u8>>::read_varint == parse_varint, all buffers of 0..=9 bytes'},
+            {'harness': 'get_varint_bytes_all_u64', 'validates': 'VarInt::get_varint_bytes == varint(n), all u64'},
+        ],
+        'assumptions': [SHA, 'compact-size reader/writer bodies use &mut-capturing closures: their contracts are assumed by Verus and proved by Kani on the real functions (complete: loop-free over all u64 / all <=9-byte buffers)'],
+        'design_ref': 'DESIGN.md section 4 C01',
+        'level_text': 'Functional contracts proved by Verus on the real serialisers (bytes == ser_tx(contents), any counts / script lengths) and parsers (result fields == what the positional decoder dec_tx reads from the bytes; id == reversed sha256d of the serialisation; coinbase predicate; accessors), compact-size codec proved by Kani over the full u64 domain. Unbounded in counts and lengths, so both sides of 252/253 and 65535/65536 are inside the quantifier.',
+        'level_note': TB,
+    },
+    'C02': {
+        'units': {
+            'script_ser': ['*'],
+            'script_parse': ['*'],
+        },
+        'assumptions': ['num-derive FromPrimitive table generated from the OpCodes enum in the current source'],
+        'design_ref': 'DESIGN.md section 4 C02',
+        'level_text': 'Verus proves on the real tokenizer / re-nesting / serialiser bodies: accepted => flatten(parsed) == strict independent tokenizer tok(bytes) (pushes little-endian, truncated push => rejected, unknown opcode => rejected), no conditional opcode left outside a closed block, serialise(parsed) == input bytes (lemmas L1, L2), push-prefix helper minimal for every length 1..2^32-1 and parses back to one push. All lengths, all nesting depths.',
+        'level_note': TB,
+    },
     'C04': {
         'units': {
             'tx_cache': ['*'],
         },
-        'assumptions': [
-            'sha256 is an uninterpreted function (the sha2 crate is assumed to compute it)',
-        ],
+        'assumptions': [SHA],
         'design_ref': 'DESIGN.md section 4 C04',
         'level_text': 'Inductive data-structure invariant proved by Verus on the real bodies of every constructor and every &mut self method of Transaction: each memoised hash slot is empty or equals the hash of the CURRENT inputs/outputs, for arbitrary prior state (mutators have no precondition), hence for all finite call histories, not a depth bound. Together with the C03/C10 contracts (result == spec(current contents)) the sighash is a function of the contents only.',
-        'level_note': 'Trusted: Verus/Z3; the extraction rules of DESIGN 2.2; derive(Clone) is structural; Vec operations per vstd; sha256 uninterpreted.',
+        'level_note': TB,
     },
 }
 
 NOT_CLAIMED = {
-    'C01': 'not reached yet (unit tx_wire under construction)',
-    'C02': 'not reached yet',
     'C03': 'not reached yet',
     'C05': 'not reached yet',
     'C06': 'not reached yet',
